@@ -1,9 +1,9 @@
-\* G06 generator (thorough): three daemon connections (5 representative scripts), two Accept calls, two Close calls
+\* G06 generator (thorough): two daemon connections (5 representative scripts), two Accept calls, two Close calls, up to five steps
 SPECIFICATION GenSpec
 CONSTANTS
   Mode = "listener"
   Origins = {"listen"}
-  MaxD = 3
+  MaxD = 2
   MaxAcc = 2
   MaxClose = 2
   Scripts <- MixScripts
